@@ -455,7 +455,12 @@ def flatten_cases(ctx, res, oracle_only):
             m = model(ravel)
             tot = int(sum(np.size(x) for x in X))
             if kind == 'rt':
-                flat = m.flattenX(X)
+                try:
+                    flat = m.flattenX(X)
+                except Exception as e:      # no exception of the code under test may abort the run: it is a finding
+                    res.violate('flattenX-raised', 'flattenX raised %s: %s on a state of scalars and arrays (shapes %s)' % (type(e).__name__, e, [list(np.shape(v)) for v in X]),
+                                dict(kind='flatten-rt', shapes=[list(np.shape(v)) for v in X], ravel=ravel), repr(e), 'no exception')
+                    continue
                 try:
                     Y = m.unflattenX(flat, X)
                 except Exception as e:
@@ -467,7 +472,7 @@ def flatten_cases(ctx, res, oracle_only):
                 flat = np.array([rng.uniform(-9, 9) for _ in range(L)], float)
                 try:
                     Y = m.unflattenX(flat, X)
-                except (ValueError, IndexError):
+                except Exception:
                     Y = None
                 lines.append('flat.un %s %s' % (enc_list(flat.tolist()), enc_state(X)))
                 cases.append((kind, X, flat, Y, ravel))
@@ -475,9 +480,15 @@ def flatten_cases(ctx, res, oracle_only):
             nm = rng.choice([2, 2, 3])
             rav = [rng.random() < 0.4 for _ in range(nm)]
             Xs = [gen_state(rng, allow_nd=rav[i]) for i in range(nm)]
-            c = Coupler([model(r) for r in rav])
-            flat = c.flattenX(Xs)
-            sizes = list(c._sizeRef)
+            try:
+                c = Coupler([model(r) for r in rav])
+                flat = c.flattenX(Xs)
+                sizes = list(c._sizeRef)
+            except Exception as e:
+                shp = [[list(np.shape(v)) for v in x] for x in Xs]
+                res.violate('coupler-flattenX-raised', 'Coupler.flattenX raised %s: %s (structure %s)' % (type(e).__name__, e, shp),
+                            dict(kind='flatten-c', shapes=shp, ravel=rav), repr(e), 'no exception')
+                continue
             if kind == 'c':
                 try:
                     Ys = c.unflattenX(flat, Xs)
@@ -490,7 +501,7 @@ def flatten_cases(ctx, res, oracle_only):
                 flat2 = np.array([rng.uniform(-9, 9) for _ in range(max(0, L))], float)
                 try:
                     Ys = c.unflattenX(flat2, Xs)
-                except (ValueError, IndexError):
+                except Exception:
                     Ys = None
                 lines.append('flat.cu %s %s %d %s' % (enc_list(flat2.tolist()), vlib.enc_ilist(sizes), nm, ' '.join(enc_state(X) for X in Xs)))
                 cases.append((kind, Xs, flat2, Ys, (rav, sizes)))
